@@ -363,6 +363,18 @@ def scan_class(cnode, file, info, errors):
                 cinfo['builds'].append(tr_build(cls, fn, file))
             except TranslationError as ex:
                 errors.append({'item': '%s.%s' % (cls, fn.name), 'file': ex.file, 'line': ex.line, 'msg': ex.msg})
+                # the oracle still learns which dictionary keys the method tests (`'k' in <dict>`)
+                keys = []
+                for n in ast.walk(fn):
+                    if (isinstance(n, ast.Compare) and len(n.ops) == 1 and isinstance(n.ops[0], ast.In)
+                            and isinstance(n.left, ast.Constant) and isinstance(n.left.value, str)
+                            and n.left.value not in keys):
+                        keys.append(n.left.value)
+                if keys:
+                    cinfo['builds'].append({'cls': cls, 'name': fn.name, 'file': file, 'line': fn.lineno,
+                                            'params': [a.arg for a in fn.args.args][1:], 'plain': [], 'dict': 'hyperparams',
+                                            'sets_built': False, 'sets_hyper': False, 'model_error': ex.msg,
+                                            'items': [{'test': k, 'read': k, 'attr': k, 'line': fn.lineno} for k in keys]})
         else:
             if fn.name == '__init__':
                 a = fn.args
@@ -527,7 +539,7 @@ def generate(repo):
     bnames = []
     for c in info['classes']:
         for b in c['builds']:
-            if b['dict'] is None:
+            if b['dict'] is None or b.get('model_error'):
                 continue
             rows = []
             bad = False
